@@ -18,6 +18,12 @@ for n in range(39, 46):
         if i in r and prop in r[i].get("checks", {}) and r[i]["checks"][prop].get("wall_s") is not None:
             # only results produced by this shard (the committed file has no round-10 entries)
             first[i] = r[i]
+# changes run locally against /repo (apply, check, undo) after the shards had timed out
+loc = json.load(open(V + "/selftest/seeded_results.json"))
+for i in ids:
+    prop = i.split("-")[0]
+    if i not in first and i in loc and prop in loc[i].get("checks", {}):
+        first[i] = loc[i]
 json.dump(first, open(V + "/selftest/seeded_results_round10_first_run.json", "w"), indent=1, sort_keys=True)
 allr = json.load(open(V + "/selftest/seeded_results.json"))
 allr.update(first)
